@@ -4,6 +4,7 @@
 package vrt
 
 import (
+	"time"
 	"encoding/json"
 	"fmt"
 	"math/big"
@@ -56,7 +57,23 @@ func RunAll(h func()) {
 			seq = map[string]int{}
 			resetHooks()
 			fmt.Printf("VERIF-BEGIN %s\n", c.Name)
-			Run(h)
+			// a harness that does not come back (the code under test hangs: a deadlock among its
+			// goroutines, an endless retry) is the native face of the engine's "all goroutines are
+			// asleep" outcome: reported like an uncaught panic, the hung goroutine is abandoned
+			done := make(chan struct{})
+			go func() {
+				defer close(done)
+				Run(h)
+			}()
+			hang := 45 * time.Second
+			if v, ok := c.Params["hang_seconds"]; ok && v > 0 {
+				hang = time.Duration(v) * time.Second
+			}
+			select {
+			case <-done:
+			case <-time.After(hang):
+				fmt.Printf("VERIF-ASSERT-FAILED uncaught-panic the harness did not return within %v (hang)\n", hang)
+			}
 			fmt.Printf("VERIF-END %s\n", c.Name)
 		}
 	}
